@@ -51,7 +51,11 @@ def closure_flow(ix, outer_site, name):
     conv = Conv(outer.tab, env, outer.canon)
     fl = Flow(f, conv)
     fl.canon = outer.canon
+    fl.ix, fl.known = outer.ix, outer.known      # helpers new to the reviewed tree are followed, as in mkflow
     fl.run()
+    if getattr(fl, 'unfollowed', None):
+        from sa.helpers import UNFOLLOWED
+        UNFOLLOWED.setdefault(f.site, set()).update(fl.unfollowed)
     return outer, f, fl
 
 
@@ -93,14 +97,12 @@ def loglike(ix, R, tag, site, name, thorough=False):
             why.append('chisq_trans(%s)' % ', '.join(fmt(fl, a) for a in cs.args))
         # the parameter vector
         p0 = f.params()[0]
-        vec = cs.node.args[0]
-        if isinstance(vec, ast.Name):
-            defs = [n for n in ast.walk(f.node) if isinstance(n, ast.Assign) and
-                    len(n.targets) == 1 and isinstance(n.targets[0], ast.Name) and
-                    n.targets[0].id == vec.id]
-            vec = defs[-1].value if defs else vec
-        if not index_vector(f, vec, p0):
-            why.append('parameter vector is %s' % unparse(vec))
+        pb = {'P': fl.tab.name(p0)}
+        forms = ['P', 'array(P)', 'asarray(P)', '[P[i] for i in range(len(self.fitting_parameters))]',
+                 'array([P[i] for i in range(len(self.fitting_parameters))])',
+                 'asarray([P[i] for i in range(len(self.fitting_parameters))])']
+        if not cs.args or not any(fl.tab.equal(cs.args[0], spec(fl, t_, pb)) for t_ in forms):
+            why.append('parameter vector is %s' % (fmt(fl, cs.args[0]) if cs.args else None))
         for e, what in ((r, 'the result is returned'), (cs, 'chisq_trans is called')):
             if e.guards or e.loops:
                 why.append('%s conditionally (%s)' % (what, [g.text() for g in e.guards]))
@@ -120,7 +122,19 @@ def prior(ix, R, tag, site, name, known=False):
         p0 = fl.tab.name(f.params()[0])
         why = []
         sc = calls(fl, 'sample')
-        if len(sc) != 1:
+        # the comprehension spelling: the returned sequence is [prior_i.sample(in[i]) for i, prior_i in enumerate(priors)]
+        wantc = spec(fl, '[q_.sample(T_[i_]) for i_, q_ in enumerate(self.fitting_priors)]', {'T_': p0})
+        rets_ = [x for x in fl.of('return') if x.value is not None]
+        as_comp = False
+        if len(rets_) == 1 and not rets_[0].guards and not rets_[0].loops:
+            rv_ = rets_[0].value
+            ra_ = atom_of(fl, rv_)
+            if ra_ is not None and ra_.head == 'call' and ra_.extra[0] in ('fn:tuple', 'fn:list', 'fn:array') and len(ra_.args) == 1:
+                rv_ = ra_.args[0]
+            as_comp = fl.tab.equal(rv_, wantc)
+        if as_comp:
+            pass
+        elif len(sc) != 1:
             why.append('%d sample() calls (output is not produced by fitting_priors[i].sample)' % len(sc))
         else:
             e = sc[0]
